@@ -54,11 +54,14 @@ def aggregate_linear(a: int, b: int, c: int, n: int, mi: int) -> bool:
     """
     hx.begin()
     recs = [a, b, c][:n]
+    if 'records' in hx.P:
+        recs = list(hx.P['records'])         # plain Python integers beyond 2**53 (a detour through floats would round them)
     mode = hx.pick(MODES, mi)
     got, reported = _aggregate_through_api(recs, mode)
     if reported != recs:
         return hx.end(hx.fail("reported individual scores", got=reported, exp=recs))
-    snapshot = [a, b, c][:n]
+    snapshot = list(recs) if 'records' in hx.P else [a, b, c][:n]
+    a = recs[0]
     if mi == 0:
         exp = a
         for x in recs[1:]:
@@ -411,7 +414,8 @@ ASSUMPTIONS = ["the score function is a table lookup by (combination, repetition
 def obligations(tier):
     enc = (B.grid_search, B._run_model_for_search, B._score_model_for_search)
     obs = [
-        X("aggregate_linear", aggregate_linear, labels=("min", "max", "sum"), timeout=300, encoded=(B.grid_search,)),
+        X("aggregate_linear", aggregate_linear, parts=[{}, {"records": [2 ** 60 + 1]}, {"records": [2 ** 60 + 1, 3, -7]}],
+          labels=("min", "max", "sum"), timeout=300, encoded=(B.grid_search,)),
         X("aggregate_dispatch", aggregate_dispatch, labels=("mean", "variance", "invalid_mode"), timeout=300,
           encoded=(B._score_model_for_search,)),
         X("selection", selection, parts=[{"k": k, "procs": p} for k in ((1, 2, 3, 4) if tier == "quick" else (1, 2, 3, 4, 5, 6)) for p in (1, 2) if not (p == 2 and k == 1) and not (k == 5 and tier != "quick")] +
